@@ -154,7 +154,8 @@ def context_for(ev, sp, rng):
         elif mcv == "OHC":
             pass
         elif mcv in ("OM[", "OM]", "OM="):
-            v = rng.randint(1, 10 ** 6)
+            # values beyond 32 bits too: the arguments are 64-bit
+            v = rng.choice([rng.randint(1, 10 ** 6), 5 * 10 ** 9, 2 ** 62 + 12345, -(2 ** 40) - 3, -7, 2 ** 63 - 1])
             ty = 2 if mcv != "OM=" else 1
             vals = {"value": v, "type": ty}; pl = obs.i64(v) + obs.i32(ty)
             if mcv == "OM]":
@@ -220,9 +221,15 @@ _CTX = {}
 def run_listed(mcv):
     chk, build, evs, sp = _CTX["chk"], _CTX["plain"], _CTX["evs"], _CTX["spec"]
     ev = evs[mcv]
-    rng = chk.rng(hash(mcv) & 0xffff, "ctx")
-    ctx = context_for(ev, sp, rng)
     res = {"mcv": mcv, "viol": [], "judged": 0}
+    for draw in range(3):
+        _run_listed_once(chk, build, ev, sp, mcv, draw, res)
+    return res
+
+
+def _run_listed_once(chk, build, ev, sp, mcv, draw, res):
+    rng = chk.rng(sum(ord(c) << (8 * k) for k, c in enumerate(mcv)) + 1000003 * draw, "ctx")
+    ctx = context_for(ev, sp, rng)
     if ctx is None:
         return res
     pro, e, epi, vals = ctx
